@@ -93,7 +93,7 @@ def gen_op(rng, info):
             name = rng.choice(info["shared"])
         return {"k": "lookup", "name": name, "cls": rng.choice([None, "ReferenceType", "ObjectType", "Object", "DataType", "VariableType"])}
     if k in ("refs_of_type", "closure", "circular"):
-        return {"k": k, "name": rng.choice(info["reftypes"] + ["NoSuchType"] if rng.random() < 0.1 else info["reftypes"])}
+        return {"k": k, "name": rng.choice(info["reftypes"] + ["NoSuchType"] if rng.random() < 0.1 else info["reftypes"]), "dup": rng.random() < 0.5}
     if k == "nav":
         return {"k": "nav", "fn": rng.choice(["hierarchical", "typing", "subtypes", "relatives_d", "relatives_a", "has_subtype"]), "name": rng.choice(info["reftypes"]),
                 "keep_paths": rng.random() < 0.5}
@@ -189,6 +189,9 @@ def apply(G, op, sc):
             if (r["Src"] == r["Trg"]).any() or len(r) == 0:
                 return {"skipped": "self-loop or no edge"}, problems
             arg = r[["Src", "Trg"]].copy()
+            if op.get("dup"):
+                # the caller's table names an edge more than once (parallel references of two types collapse to that)
+                arg = pd.concat([arg, arg.head(2)], ignore_index=True)
             before = table_fp(arg)
             tc = nav.fast_transitive_closure(arg)
             if table_fp(arg) != before:
@@ -319,6 +322,11 @@ def one_history(run, sc, i, length):
                 g["nodes"][b_]["browse"] = g["nodes"][a_]["browse"]
     import docs as D
     files = D.serialise(rng, g)
+    if rng.random() < 0.3:
+        # a document without a Models element: its namespace has no model in the graph (a write makes one up for the header only)
+        import re
+        nm = rng.choice(sorted(files))
+        files[nm] = re.sub(r"<((?:\w+:)?)Models>.*?</(?:\w+:)?Models>", "", files[nm], count=1, flags=re.S)
     try:
         G, _ = W.build_graph(sc, "g%d" % i, files)
     except Exception as e:  # noqa: BLE001
